@@ -105,6 +105,10 @@ static int grab_pipe(int *fd)
 /* buffer management ********************************************************/
 #define MAX_CACHED_BUFS		20
 #define BUF_SIZE		4096
+#if defined(IVYKIS_VERIF) && defined(IVYKIS_VERIF_PUMP_BUF_SIZE)
+#undef BUF_SIZE
+#define BUF_SIZE	IVYKIS_VERIF_PUMP_BUF_SIZE
+#endif
 
 #ifndef HAVE_SPLICE
  #define splice_available	 0
